@@ -1,6 +1,72 @@
-/-! Driver commands of the `Shell` cluster.  `handle` returns `none` for commands that are not its own. -/
+import TbotVerif.Spec.Shell
+/-! Driver commands of the `Shell` cluster.
+    case:  `<bash|ash> <chunk> <cmd>*`  with  cmd = `<x|x0|t>/<pre,…>/<args,…>/<out>/<status>`
+    obs:   one token per command `<val>/<argv|!>/<written>/<pieces>` with
+           val = `rc:<status>:<text>` | `out:<text>` | `b0|b1` | `err:<tag>`
+    `shell <case…> || <obs…>` replays the fragmentation found in the observation on the model. -/
 namespace Driver.Shell
+open _root_.Shell
 
-def handle (_toks : List String) : Option String := none
+def splitAt2 (toks : List String) (sep : String) : List String × List String :=
+  (toks.takeWhile (· != sep), (toks.dropWhile (· != sep)).drop 1)
+
+def bytesList (s : String) : Option (List Bytes) := Wire.listOf Bytes.ofHex s
+
+def cmdOf (s : String) : Option ShCmd :=
+  match s.splitOn "/" with
+  | [op, pre, args, out, st] => do
+    let op ← if op == "x" then some ShOp.exec else if op == "x0" then some .exec0 else if op == "t" then some .test else none
+    pure { op := op, pre := ← bytesList pre, args := ← bytesList args, out := ← Bytes.ofHex out, status := ← st.toNat? }
+  | _ => none
+
+def caseOf (toks : List String) : Option ShCase :=
+  match toks with
+  | kind :: chunk :: cmds => do
+    let ash ← if kind == "ash" then some true else if kind == "bash" then some false else none
+    pure { ash := ash, chunk := ← chunk.toNat?, cmds := ← cmds.mapM cmdOf }
+  | _ => none
+
+def valStr : ShVal → String
+  | .rc st out => s!"rc:{st}:{Wire.chars out}"
+  | .out out => s!"out:{Wire.chars out}"
+  | .bool b => if b then "b1" else "b0"
+  | .err t => s!"err:{t}"
+
+def valOf (s : String) : Option ShVal :=
+  match s.splitOn ":" with
+  | ["rc", st, out] => do pure (.rc (← st.toNat?) (← Wire.charsOf out))
+  | ["out", out] => (Wire.charsOf out).map .out
+  | ["b1"] => some (.bool true)
+  | ["b0"] => some (.bool false)
+  | "err" :: rest => some (.err (":".intercalate rest))
+  | _ => none
+
+def obsStr (o : CmdObs) : String :=
+  "/".intercalate [valStr o.val,
+    (match o.argv with | none => "!" | some a => Wire.sepBy "," (a.map Bytes.toHex)),
+    Bytes.toHex o.written, Wire.sepBy "," (o.pieces.map toString)]
+
+def obsOf (s : String) : Option CmdObs :=
+  match s.splitOn "/" with
+  | [v, argv, wr, ps] => do
+    let argv ← if argv == "!" then some none else (bytesList argv).map some
+    pure { val := ← valOf v, argv := argv, written := ← Bytes.ofHex wr, pieces := ← Wire.listOf String.toNat? ps }
+  | _ => none
+
+def handle (toks : List String) : Option String :=
+  match toks with
+  | "shell" :: rest =>
+    let (ct, ot) := splitAt2 rest "||"
+    some (match caseOf ct, ot.mapM obsOf with
+    | some c, some os =>
+      if os.length != c.cmds.length then "bad-op"
+      else " ".intercalate ((_root_.Shell.run c (os.map CmdObs.pieces)).map obsStr)
+    | _, _ => "bad-op")
+  | "spec" :: "C01" :: rest =>
+    let (ct, ot) := splitAt2 rest "||"
+    some (match caseOf ct, ot.mapM obsOf with
+    | some c, some os => if Spec.C01 c os then "1" else "0"
+    | _, _ => "bad-op")
+  | _ => none
 
 end Driver.Shell
